@@ -270,6 +270,14 @@ fn react(led: &Led, kn: &Knobs, server: usize, health: Health, via: Via, req: &[
             let mut b = normal("wrong_id");
             let delta = 1 + sim::draw("peer.id_delta", 3) as u16;
             dns::set_id(&mut b, p.id.wrapping_add(delta));
+            if via == Via::Dgram && sim::chance("peer.wrong_id_short", 1, 2) {
+                // A shorter stray datagram (the same question, no answer
+                // record): what is received after it is still a whole message.
+                if let Some(k) = k {
+                    b = dns::mk_reply_other_question_rc(p.id.wrapping_add(delta), &format!("r{}.sim.", k), None, Rcode::REFUSED);
+                    sim::stat("probe.short_stray_datagram_before_the_answer");
+                }
+            }
             let d = junk_delay(base_delay);
             r.out.push((b, d));
             if sim::chance("peer.then_right", 1, 2) {
@@ -1013,6 +1021,12 @@ fn check(led: &Led, kn: &Knobs, total: usize, finished: bool, connect_faults: &[
                 }
                 if !p.qr {
                     sim::violation(P, "attribution", "not-a-response", format!("request k={} was handed a message with QR=0", k));
+                    return;
+                }
+                // Peers only ever send whole messages whose answer section
+                // holds its token records (stream corruption aside).
+                if l.stream_faults == 0 && p.ancount as usize != p.tokens.len() {
+                    sim::violation(P, "attribution", "handed-a-message-the-peer-did-not-send", format!("request k={} was handed a response whose header announces {} answer records but which holds {} (tokens {:?}): not a message any peer sent", k, p.ancount, p.tokens.len(), p.tokens));
                     return;
                 }
                 for t in &p.tokens {
